@@ -243,12 +243,27 @@ func runCase(c Case) []ev.Violation {
 	hc := health.NewHTTPHealthChecker(repo, hx.QuietLogger(), cl)
 	var cbMu sync.Mutex
 	callbacks := map[string]int{}
+	deadCtx := map[string]int{}
 	hc.SetRecoveryCallback(health.RecoveryCallbackFunc(func(ctx context.Context, e *domain.Endpoint) error {
+		// the production callback re-discovers the endpoint's models over HTTP with this context:
+		// it needs the context to outlive the check round that noticed the recovery
+		time.Sleep(8 * time.Millisecond)
 		cbMu.Lock()
-		callbacks[e.URL.Host]++
+		if ctx.Err() != nil {
+			deadCtx[e.URL.Host]++
+		} else {
+			callbacks[e.URL.Host]++
+		}
 		cbMu.Unlock()
-		return nil
+		return ctx.Err()
 	}))
+	// a scheduled round as the scheduler loop runs it: with a context of its own that ends as soon
+	// as the round is over
+	runDue := func() {
+		rctx, done := context.WithTimeout(context.Background(), 15*time.Second)
+		hc.VerifRunDue(rctx)
+		done()
+	}
 	if err := hc.StartChecking(ctx); err != nil {
 		rec.Inconclusive(err.Error())
 		return nil
@@ -429,7 +444,7 @@ func runCase(c Case) []ev.Violation {
 						due[i] = -1
 					}
 				}
-				hc.VerifRunDue(ctx)
+				runDue()
 				trace = append(trace, "tick")
 			} else {
 				for i := range due {
@@ -502,7 +517,7 @@ func runCase(c Case) []ev.Violation {
 	}
 	for tck := 0; tck < 5; tck++ {
 		shift(30 * time.Second)
-		hc.VerifRunDue(ctx)
+		runDue()
 	}
 	for i, e := range get() {
 		_ = i
@@ -511,10 +526,12 @@ func runCase(c Case) []ev.Violation {
 		}
 	}
 	// recovery callbacks: one per not-healthy -> healthy transition observed during the history
-	time.Sleep(30 * time.Millisecond)
+	time.Sleep(60 * time.Millisecond)
 	cbMu.Lock()
 	for _, h := range hosts {
-		if callbacks[h] < wantCallbacks[h] {
+		if callbacks[h] < wantCallbacks[h] && deadCtx[h] > 0 {
+			bad("recovery-callback-context-ended-with-the-round", "endpoint %s recovered %d time(s); %d recovery callback(s) found their context already cancelled 8 ms after they started (the check round that noticed the recovery had ended), only %d could have re-discovered anything", h, wantCallbacks[h], deadCtx[h], callbacks[h])
+		} else if callbacks[h] < wantCallbacks[h] {
 			bad("recovery-callback-missing", "endpoint %s recovered %d time(s) during the history but the recovery callback ran %d time(s)", h, wantCallbacks[h], callbacks[h])
 		}
 	}
